@@ -104,8 +104,10 @@ def gen_ops(rng, world, n_ev, max_ops=25, allow_faults=True):
         a = a or rng.choice(inputs)
         o = {'op': 'set', 'ev': ev(), 'target': spell(a),
              'value': worlds.enc(new_value(rng))}
-        if rng.random() < 0.08 and a in world['cells']:
-            # the API also accepts the XLCell object itself
+        if rng.random() < 0.08 and a in world['cells'] or \
+                a not in world['cells'] and rng.random() < 0.3:
+            # the API also accepts the XLCell object itself (for a cell that
+            # is stored nowhere yet: one the caller made)
             o['target'] = a
             o['as_cell'] = True
         return o
@@ -561,6 +563,10 @@ class History:
                 if op.get('as_cell') and addr in model.cells:
                     handle = model.cells[addr]
                     self.bump('probe:cell_object_as_address')
+                elif op.get('as_cell') and kind == 'set' and '!' in addr:
+                    from xlcalculator.xltypes import XLCell
+                    handle = XLCell(addr, None)
+                    self.bump('probe:new_cell_object_as_address')
                 if kind == 'set':
                     value = worlds.dec(op['value'])
                     out = outcome_of(ev.set_cell_value, handle, value)
